@@ -63,6 +63,12 @@ CHECKS = {
              "DepAgree on the model; the real tokens, hover, targets, origins, validation and links are observed through probe attributes and compared by TraceBody with "
              "Effective()/LinksP().",
         ref="DESIGN.md 5/C16", technique="TLC model checking (MC_Keys, MC_Body dep mode) + replay of TLC-generated cases + TLC trace validation (TraceBody: memo rule, probe agreement, LinksP)"),
+    "C17": dict(
+        text="CopyHeap.tla models values as heaps of mutable containers with identities; MC_Copy checks on all heaps of <= 6 nodes that a deep copy is disjoint and that mutations "
+             "of either side are invisible to the other, and that the named deviation ShallowAt is rejected. Binding: real values of 32 root types are populated by reflection over the "
+             "real struct definitions (future fields included), the real Copy() is called, both heap graphs and the digests after real mutations are logged; TraceCopy decides Iso, "
+             "Disjoint and the frame condition.",
+        ref="DESIGN.md 5/C17", technique="TLA+ heap model (CopyHeap/MC_Copy) + TLC trace validation of real heap graphs and mutation frames (TraceCopy)"),
 }
 
 NOT_YET = {
